@@ -10,7 +10,7 @@ ID = "C08"
 LEVEL = "exploration"
 BUDGET = {"quick": 50, "thorough": 900}
 QUICK_CASES = 2400  # generator items in the quick tier (fixed amount of work; BUDGET is then only a safety cap)
-FLOOR = {"quick": 800, "thorough": 1500}
+FLOOR = {"quick": 800, "thorough": 800}  # conclusive cases below which a run is inconclusive (the thorough tier is time-budgeted: same floor)
 TIMEOUT = 90
 REQUIRED_OBS = ["runs_observed", "msgs_sent", "pairs_matching", "pairs_not_matching", "emitted_checked", "mqtt_runs", "webhook_runs", "state_hold_cases"]
 RULE = (
